@@ -72,6 +72,9 @@ func closureTypes(a int) int {
                                       '(ite (>= in_0 0) (div in_0 2) (- (div (- in_0) 2)))', '(+ in_0 1)', '(- in_0)'])])))
     C.append(T('increments', '', V + 'x := a\ny := b\nx++\ny--\nz := x - -y\nz -= -1\nw := +x - -(-y)\nprintln("i", x, y, z, w)',
                lambda inp: ok([('i', ['(+ in_0 1)', '(- in_1 1)', '(+ in_0 in_1 1)', '(- (+ in_0 1) (- in_1 1))'])])))
+    # lead reported by a sub-agent: pointer variables in generic functions instantiated more than once
+    C.append(T('generic_ptr_vars', '//go:noinline\nfunc gp[T any](v, w T) (T, T) {\n\tx := v\n\tp := &x\n\ty := w\n\tq := &y\n\tz := v\n\t*p = w\n\t*q = z\n\treturn x, y\n}\n', V + 'r1, r2 := gp(a, b)\ns1, s2 := gp("p", "qq")\nt1, t2 := gp(int8(1), int8(2))\nprintln("g", r1, r2, len(s1), len(s2), t1, t2)',
+               lambda inp: ok([('g', ['in_1', 'in_0', '2', '1', '2', '1'])])))
     return C
 
 
